@@ -3,7 +3,11 @@ from . import families as F
 from .simprops import generic_run, sizes, sim_replay
 from .p_session import run_session_correspondence
 LABELS = {"C07", "C03", "C06", "PANIC"}
+from .p_endpoint import run_endpoint_correspondence
+def _extra(ctx):
+    run_session_correspondence(ctx)
+    run_endpoint_correspondence(ctx)
 def run(ctx):
-    generic_run(ctx, LABELS, extra=run_session_correspondence, plan=[("death2", lambda: F.fam_death(ctx.rng, sizes(ctx, 300, 3000))), ("handshake", lambda: F.fam_handshake(ctx.rng, sizes(ctx, 100, 800)))])
+    generic_run(ctx, LABELS, extra=_extra, plan=[("death2", lambda: F.fam_death(ctx.rng, sizes(ctx, 300, 3000))), ("handshake", lambda: F.fam_handshake(ctx.rng, sizes(ctx, 100, 800)))])
 def replay(ctx, path):
     return sim_replay(ctx, path, LABELS)
